@@ -50,6 +50,7 @@ class Entry:
         self.blocks = []  # Block list: sig / loop / closure / before / after / wraptail
         self.deref = []
         self.subst = []  # (from, to, tag)
+        self.callrewrite = []  # (method, function path, tag)
         self.nocanary = None
         self.rename = None
 
@@ -92,6 +93,9 @@ def parse_vc(path):
                     cur.rename = rest
                 elif word == "nocanary":
                     cur.nocanary = rest or "unspecified"
+                elif word == "callrewrite":
+                    a = rest.split()
+                    cur.callrewrite.append((a[0], a[1], a[2] if len(a) > 2 else "#N9"))
                 elif word == "subst":
                     m = re.match(r'"(.*)"\s*=>\s*"(.*)"\s*(#\S+)?$', rest)
                     if not m:
@@ -325,6 +329,25 @@ def emit_fn(out, entry, mode, stats, canary=False):
             if k < 1 or k > len(loops):
                 raise LostAnchor(f"{entry.id}: loop#{k} not found ({len(loops)} loops)")
             edits.append((loops[k - 1][1], loops[k - 1][1], "\n" + b.text().rstrip("\n") + "\n", vc_origin(b)))
+            m_it = re.search(r"iter=(\w+)", b.arg)
+            if m_it:
+                kw_i = loops[k - 1][0]
+                if toks[kw_i].text != "for":
+                    raise LostAnchor(f"{entry.id}: loop#{k} is not a for loop (iter= given)")
+                j = kw_i + 1
+                in_i = None
+                while j < loops[k - 1][1]:
+                    tj = toks[j]
+                    if tj.kind == PUNCT and tj.text in ("(", "[", "{"):
+                        j = br[j] + 1
+                        continue
+                    if tj.kind == IDENT and tj.text == "in":
+                        in_i = j
+                        break
+                    j += 1
+                if in_i is None:
+                    raise LostAnchor(f"{entry.id}: loop#{k}: no `in`")
+                edits.append((in_i + 1, in_i + 1, f" {m_it.group(1)}:", dict(kind="gen", fn=entry.id)))
         # closures
         closures = []
         for n, i in enumerate(body):
@@ -407,13 +430,97 @@ def emit_fn(out, entry, mode, stats, canary=False):
                 raise LostAnchor(f"{entry.id}: snippet {m.group(1)!r} not found")
             pos = r[0] if b.kind == "before" else r[1] + 1
             edits.append((pos, pos, "\n" + b.text().rstrip("\n") + "\n", vc_origin(b)))
-        # subst (declared normalisations)
+        # subst (declared normalisations); `$n` holes stand for the whole content of a bracket pair and stay verbatim
         for frm, to, tag in entry.subst:
-            r = find_snippet(sf, bo + 1, last, frm)
-            if r is None:
-                raise LostAnchor(f"{entry.id}: subst source {frm!r} not found")
-            edits.append((r[0], r[1] + 1, to, dict(kind="gen", fn=entry.id, norm=tag)))
+            fparts = re.split(r"(\$\d)", frm)
+            tparts = re.split(r"(\$\d)", to)
+            if [x for x in fparts if x.startswith("$")] != [x for x in tparts if x.startswith("$")]:
+                raise SystemExit(f"{entry.id}: holes of //@subst differ between pattern and replacement")
+            if len(fparts) == 1:
+                r = find_snippet(sf, bo + 1, last, frm)
+                if r is None:
+                    raise LostAnchor(f"{entry.id}: subst source {frm!r} not found")
+                edits.append((r[0], r[1] + 1, to, dict(kind="gen", fn=entry.id, norm=tag)))
+                stats.count(tag.lstrip("#"))
+                continue
+            # pattern with holes: match the literal runs in order; each hole = content up to the matching close bracket
+            lit = [[t.text for t in tokenize(x) if t.kind not in (WS, COMMENT)] for x in fparts[0::2]]
+            bsig = body
+            found = None
+            for a in range(len(bsig)):
+                pos = a
+                runs = []
+                ok = True
+                for li, run in enumerate(lit):
+                    if li > 0:
+                        # previous run must end with an opening bracket; hole extends to its match
+                        ob = bsig[pos - 1]
+                        if toks[ob].text not in ("(", "[", "{"):
+                            ok = False
+                            break
+                        cb = br[ob]
+                        # position of closing bracket in bsig
+                        while pos < len(bsig) and bsig[pos] < cb:
+                            pos += 1
+                        if pos >= len(bsig) or bsig[pos] != cb:
+                            ok = False
+                            break
+                    if pos + len(run) > len(bsig) or any(toks[bsig[pos + k]].text != run[k] for k in range(len(run))):
+                        ok = False
+                        break
+                    if run:
+                        runs.append((bsig[pos], bsig[pos + len(run) - 1]))
+                    else:
+                        runs.append(None)
+                    pos += len(run)
+                if ok:
+                    found = runs
+                    break
+            if not found:
+                raise LostAnchor(f"{entry.id}: subst pattern {frm!r} not found")
+            for rng, rep in zip(found, tparts[0::2]):
+                if rng is None:
+                    continue
+                edits.append((rng[0], rng[1] + 1, rep, dict(kind="gen", fn=entry.id, norm=tag)))
             stats.count(tag.lstrip("#"))
+        # callrewrite (N9): `<recv>.m()` => `F(<recv>)`  (method call written as the function rustc resolves it to)
+        for meth, fpath, tag in entry.callrewrite:
+            for n, i in enumerate(body):
+                t = toks[i]
+                if not (t.kind == IDENT and t.text == meth and n >= 2 and toks[body[n - 1]].text == "."):
+                    continue
+                if not (n + 2 < len(body) and toks[body[n + 1]].text == "(" and br[body[n + 1]] == body[n + 2]):
+                    continue
+                pos_of = {tokidx: k for k, tokidx in enumerate(body)}
+                k = n - 2  # last token of receiver (index into body)
+                first = None
+                while k >= 0:
+                    tk = toks[body[k]]
+                    if tk.kind == PUNCT and tk.text in (")", "]"):
+                        o = br[body[k]]
+                        ko = pos_of[o]
+                        p_ = toks[body[ko - 1]] if ko > 0 else None
+                        if p_ is not None and ((p_.kind == IDENT and p_.text not in ("return", "let", "in", "if", "match", "else")) or p_.text in (")", "]", "?")):
+                            k = ko - 1
+                            continue
+                        first = ko
+                        break
+                    if tk.kind in (IDENT, LIT):
+                        p_ = toks[body[k - 1]] if k > 0 else None
+                        if p_ is not None and p_.text in (".", "::"):
+                            k -= 2
+                            continue
+                        first = k
+                        break
+                    if tk.kind == PUNCT and tk.text == "?":
+                        k -= 1
+                        continue
+                    break
+                if first is None:
+                    raise LostAnchor(f"{entry.id}: cannot find receiver of .{meth}()")
+                edits.append((body[first], body[first], (fpath[:-1] + "(&") if fpath.endswith("&") else (fpath + "("), dict(kind="gen", fn=entry.id, norm=tag)))
+                edits.append((body[n - 1], body[n + 2] + 1, ")", dict(kind="gen", fn=entry.id, norm=tag)))
+                stats.count(tag.lstrip("#"))
         # deref (N3)
         for name in entry.deref:
             for n, i in enumerate(body):
@@ -460,7 +567,7 @@ def emit_fn(out, entry, mode, stats, canary=False):
     out.add("\n", kind="gen")
     if not canary:
         text = sf.text[toks[kw].start:toks[last].end]
-        stats.functions.append(dict(id=entry.id, mode=mode, file=entry.file, fn=entry.fn, container=entry.container,
+        stats.functions.append(dict(id=entry.id, mode=mode, file=entry.file, fn=entry.fn, name=(entry.rename or entry.fn), container=entry.container,
                                     lines=[sf.line_of(toks[kw].start), sf.line_of(toks[last].end)],
                                     sha256=hashlib.sha256(text.encode()).hexdigest(), own=entry.own))
 
